@@ -176,7 +176,7 @@ def run_cases(prop, cases, ck, sh=None, spec="TV_Store", nshards=None, budget_ms
         state = []
         for op in c.ops:
             o = op.get("op")
-            if o in ("add", "clear", "limit", "markers", "new", "r_create", "r_destroy", "r_add", "r_limit", "r_markers"):
+            if o in ("add", "clear", "limit", "markers", "new", "r_create", "r_destroy", "r_add", "r_limit", "r_markers", "r_clear"):
                 state.append(json.dumps(op, sort_keys=True))
             elif o != "case":
                 h = hashlib.sha1(("|".join(state) + "#" + json.dumps(op, sort_keys=True)).encode()).hexdigest()
@@ -480,7 +480,7 @@ def cases_for(prop, tier, seed, pools, toks, ck):
             cases += cs
             cases += gen.gen_span_cases(lang, rnd, pools[lang], toks, per(8, 200))
             cases += gen.gen_store_relations("C05", lang, rnd, pools[lang], toks, per(4, 100))
-            cases += gen.gen_histories("C05", lang, rnd, pools[lang] + gen.ADVERSARIAL, toks, per(4, 100), length=12, adversarial=True)
+            cases += gen.gen_histories("C05", lang, rnd, pools[lang] + gen.ADVERSARIAL, toks, per(9, 150), length=12, adversarial=True)
         cases += gen.gen_registry_cases(rnd, per(15, 400), pools, toks, length=per(30, 50))
     elif prop == "C06":
         for lang in L:
@@ -503,13 +503,15 @@ def cases_for(prop, tier, seed, pools, toks, ck):
             cases += gen.gen_histories("C01", lang, rnd, pools[lang], toks, per(10, 300), length=per(16, 30), adversarial=True)
             cases += gen.gen_joined_boundary_cases(lang, rnd, pools[lang], toks, per(6, 200))
             cases += gen.gen_long_title_cases(lang, rnd)
+        # the same through the top-level API (lib.rs is part of what must not panic)
+        cases += gen.gen_registry_cases(rnd, per(20, 600), pools, toks, length=per(30, 50))
     elif prop in ("C02", "C09"):
         for lang in L:
             cases += gen.gen_marker_cases(lang, rnd, pools[lang], toks, per(10, 300))
             cases += gen.gen_markup_cases(lang, rnd, pools[lang], toks, per(6, 200))
             cases += gen.gen_table_store_cases(lang, rnd, prop)
             cases += gen.gen_histories(prop, lang, rnd, pools[lang], toks, per(3, 100), length=12, adversarial=True)
-        cases += gen.gen_registry_cases(rnd, per(10, 300), pools, toks, length=per(30, 50))
+        cases += gen.gen_registry_cases(rnd, per(25, 300), pools, toks, length=per(30, 50))
     elif prop == "C18":
         for lang in L:
             cases += gen.gen_prepare_cases(lang, rnd, pools[lang], toks, per(8, 250))
